@@ -49,12 +49,12 @@ SLICES_THOROUGH = dict(SLICES_QUICK)
 SLICES_THOROUGH.update({
     "scope2": fam(MaxStmts=5, MaxBinds=3, MaxRules=1, MaxBuilds=1, MaxNest=0, MaxMisc=0, FBSel="{1,2,3,5,7,8}", RCSel="{2,3}",
                   RDSel="{1,2,3}", RESel="{1}", RNSel="{1}", BBSel="{1,2,3,4,7}", OutSel="{1}", InSel="{2}", BRSel="{1}"),
-    "paths2": fam(MaxStmts=4, MaxBinds=2, MaxRules=1, MaxBuilds=1, MaxNest=0, MaxMisc=0, FBSel="{1,3,4,9}", RCSel="{1,2,4,5}",
+    "paths2": fam(MaxStmts=3, MaxBinds=1, MaxRules=1, MaxBuilds=1, MaxNest=0, MaxMisc=0, FBSel="{1,4}", RCSel="{1,2,4,5}",
                   RDSel="{1,2,3}", RESel="{1,2,3,4}", RNSel="{1}", BBSel="{1,2,3,6}", OutSel="{1,2,3,4}", InSel="{1,2,3,4,5,6}", BRSel="{1,3}"),
-    "nest2": fam(MaxStmts=7, MaxBinds=2, MaxRules=2, MaxBuilds=2, MaxNest=2, MaxMisc=0, FBSel="{1,2}", RCSel="{2}",
-                 RDSel="{1}", RESel="{1}", RNSel="{1}", BBSel="{1,2}", OutSel="{1}", InSel="{2}", BRSel="{1,3}"),
-    "two": fam(MaxStmts=5, MaxBinds=1, MaxRules=2, MaxBuilds=2, MaxNest=0, MaxMisc=1, FBSel="{1,5}", RCSel="{1,3}",
-               RDSel="{1,2}", RESel="{1,6}", RNSel="{1,2}", BBSel="{1,4}", OutSel="{1,3}", InSel="{2,5}", BRSel="{1,2,3}"),
+    "nest2": fam(MaxStmts=6, MaxBinds=2, MaxRules=1, MaxBuilds=2, MaxNest=2, MaxMisc=0, FBSel="{1,2}", RCSel="{2}",
+                 RDSel="{1}", RESel="{1}", RNSel="{1}", BBSel="{1}", OutSel="{1}", InSel="{2}", BRSel="{1}"),
+    "two": fam(MaxStmts=5, MaxBinds=1, MaxRules=2, MaxBuilds=2, MaxNest=0, MaxMisc=0, FBSel="{1,5}", RCSel="{1}",
+               RDSel="{1,2}", RESel="{1}", RNSel="{1,2}", BBSel="{1,4}", OutSel="{1}", InSel="{2,5}", BRSel="{1,2,3}"),
 })
 INVARIANTS = ["BuildShadowsAll", "RuleOverFileLazy", "FileFallback", "InOut", "BuildValuesInFileScope",
               "PathsSeeBuildBindings", "ScopeTree"]
@@ -428,7 +428,7 @@ def compare_llbuild(exp, rc, out, err, ctx):
     # --- known classes first (so that their consequences are not reported under generic names)
     s16 = ctx["crlf_cont"] and "invalid '$'-escape" in diag
     if s16: add("C17 crlf-continuation", "`$` followed by CR LF (a line continuation in a CRLF manifest) is rejected: %s" % diag.strip().split("\n")[0])
-    s15 = "unknown rule" in diag and any(e["up"] for e in exp["cmds"])
+    s15 = "unknown rule" in diag and diag.count("error: unknown rule") == sum(1 for e in exp["cmds"] if e["up"])
     if s15: add("C17 subninja-parent-rules", "a build statement in a subninja file names a rule of the including file (or the built-in phony) and it is not found: %s" % diag.strip().split("\n")[0])
     # --- bindings
     if act["bindings"] != exp["bindings"] and not s16:
@@ -483,7 +483,8 @@ def compare_llbuild(exp, rc, out, err, ctx):
         pool = seg_plain(e["vals"]["pool"])
         if at.get("pool", b"") != pool: add("C17 pool", "`build %s`: pool is %r, expected %r" % (name, at.get("pool"), pool))
     # --- default targets, pools
-    if exp["defaults"]:
+    if any(fp == "C17 build-line-scope" for fp, _ in bad): pass      # the target names are wrong for that reason
+    elif exp["defaults"]:
         want = b"default " + b" ".join(b'"' + p + b'"' for p in sorted(exp["defaults"]))
         if act["defaults_line"] != want: add("C17 default-paths", "default targets line %r, expected %r%s" % (act["defaults_line"], want, (" (" + diag.strip().split("\n")[0] + ")") if diag else ""))
     elif act["defaults_line"] is not None: add("C17 default-paths", "unexpected default targets %r" % act["defaults_line"])
@@ -540,6 +541,22 @@ def check_ninja(exp, d, words=None):
             if got: bad.append("ninja prints a command %r for a phony statement" % got)
         elif not match_segs(c["ninja"]["command"], got, "sh", words):
             bad.append("ninja: command of %r is %r, specification (ninja mode) says %r" % (c["outs"][0], got, seg_raw(c["ninja"]["command"])))
+    # default targets: `ninja -t commands` without targets prints the commands needed for the defaults, inputs first
+    if exp["defaults"]:
+        import itertools
+        producer = {o: i for i, c in enumerate(exp["cmds"]) for o in c["outs"]}
+        need = []; todo = [producer[p] for p in exp["defaults"] if p in producer]
+        while todo:
+            i = todo.pop()
+            if i in need: continue
+            need.append(i)
+            for p in exp["cmds"][i]["ins"] + exp["cmds"][i]["imps"] + exp["cmds"][i]["oos"]:
+                if p in producer: todo.append(producer[p])
+        need = [i for i in need if exp["cmds"][i]["rule"] != "phony"]
+        r = subprocess.run([NINJA, "-f", "build.ninja", "-t", "commands"], cwd=d, capture_output=True, timeout=60)
+        if r.returncode != 0: bad.append("ninja -t commands (default targets) failed: %s" % (r.stdout + r.stderr)[-300:].decode("latin-1"))
+        elif not any(match_segs([s for i in order for s in exp["cmds"][i]["ninja"]["command"] + [("s", b"\n")]], r.stdout, "sh") for order in itertools.permutations(need)):
+            bad.append("ninja: the commands for the default targets %r are %r, specification expects those of statements %r" % (exp["defaults"], r.stdout, need))
     return bad
 
 def swap_names(obj, a, b):
@@ -679,12 +696,12 @@ def enumerate_cases(tier, seed, wd):
     items = list(slices.items())
     def one(it):
         name, consts = it
-        return name, run_tlc(name, consts, wd, timeout=1800 if tier == "quick" else 2400, workers=3, coverage=(name == "nest"))
+        return name, run_tlc(name, consts, wd, timeout=1800 if tier == "quick" else 2400, workers=3, coverage=True)
     for name, (cases, p) in vlib.parallel(one, items, n=4):
         info[name] = dict(distinct=p["distinct"], generated=p["states"], cases=len(cases), wall=round(p["wall"], 1), actions=p["actions"])
         for c in cases: allcases.setdefault(ast_key(c), c)
     # random simulation of the large family: each run draws its own sub-alphabets (so that the successor sets stay small)
-    nruns, ntraces, depth = (6, 60, 10) if tier == "quick" else (16, 1500, 10)
+    nruns, ntraces, depth = (6, 60, 10) if tier == "quick" else (16, 300, 10)
     if "nosim" in DEV: nruns = 0
     rng = random.Random(seed)
     def sub(n, k): return "{" + ",".join(str(i) for i in sorted(rng.sample(range(1, n + 1), k))) + "}"
@@ -708,10 +725,11 @@ def enumerate_cases(tier, seed, wd):
 def make_jobs(cases, tier, seed, llbuild, wd, driver=None):
     rng = random.Random(seed)
     jobs = []
-    nvar = 2 if tier == "quick" else 4
+    nvar = 2 if tier == "quick" else 3
     for ci, c in enumerate(cases):
         for v in range(nvar):
             style = "plain" if v == 0 else "rich"
+            if tier != "quick" and v == 2 and c["src"] not in SLICES_QUICK and not c["src"].startswith("sim"): continue   # third rendering: quick slices and samples only
             j = dict(id=len(jobs), ci=ci, case=c, vseed=rng.randrange(1 << 30), style=style, llbuild=llbuild, wd=wd,
                      ninja=(v == 1), swap=None, driver=driver)
             if j["ninja"]:
@@ -810,13 +828,20 @@ def run(pid, tier, seed):
     nontriv = sum(1 for c in cases if any(cm["rule"] != "phony" and not cm["excl"] for cm in c["exp"]["cmds"]))
     states = sum(v["distinct"] or 0 for k, v in info.items() if k != "simulation")
     trans = sum(v["generated"] or 0 for k, v in info.items() if k != "simulation")
+    acts = {}
+    for k, v in info.items():
+        for a, (taken, gen) in (v.get("actions") or {}).items():
+            if a in ("Init", "Emit"): continue
+            acts[a] = acts.get(a, 0) + taken
+    never = [a for a, n in acts.items() if n == 0]
+    if never: raise vlib.Infra("vacuity: specification action(s) %s never taken in any enumerated slice" % never)
     cov = dict(states=states, transitions=trans, simulation_states=info["simulation"]["generated"], families=info,
                programs=len(cases), evaluations=len(results), distinct_nontrivial=nontriv,
                rule="one program = one manifest AST (distinct statement lists per file) enumerated or sampled by TLC from spec/fn/NinjaEval.tla; one evaluation = one textual rendering loaded by `llbuild ninja load-manifest` and compared field by field; non-trivial = ASTs with at least one non-phony build statement whose rule variables are compared (not in the excluded re-binding class)",
                ast_features=feats, rendering_features=vf,
                quoted_words_read_back_by_sh=len(words),
                spec_vs_ninja=dict(manifests=len(nin), agree=len(nin) - len(specbad), swapped=sum(1 for j in jobs if j.get("swap"))),
-               tlc_actions=info.get("nest", {}).get("actions"),
+               tlc_actions=acts,
                wall=dict(tlc=round(t1 - t0, 1), run=round(t2 - t1, 1)),
                samples=[dict(ast=c["ast"]) for c in cases[:1]])
     log("[C17] %d renderings of %d ASTs loaded (%d with CRLF, %d with high bytes, %d with continuations); %d violation class(es) in %.0fs" % (
